@@ -189,6 +189,7 @@ end
 
 structure St where
   env : Env := {}
+  encoded : Nat := 0     -- values of this case the encoder accepted (what `cenc` re-encodes concurrently)
 
 def answerEnc (r : Except Err Bytes) : String :=
   match r with
@@ -213,8 +214,11 @@ def step (s : St) (toks : List String) : St × String :=
     | _, _ => (s, "bad-op")
   | "enc" :: _ =>
     match (arg? toks "ty").bind parseTyStr, argHex? toks "pre", (arg? toks "val").bind parseValStr with
-    | some t, some pre, some v => (s, answerEnc (encodeBytes s.env t pre v))
+    | some t, some pre, some v =>
+      let r := encodeBytes s.env t pre v
+      ({ s with encoded := s.encoded + (match r with | .ok _ => 1 | _ => 0) }, answerEnc r)
     | _, _, _ => (s, "bad-op")
+  | "cenc" :: _ => (s, s!"same n={s.encoded}")   -- encoding is a function of the value: concurrency cannot change it
   | "dec" :: _ =>
     match (arg? toks "ty").bind parseTyStr, argNat? toks "pre", argHex? toks "bytes" with
     | some t, some pre, some b =>
